@@ -132,52 +132,47 @@ def check(run):
                                       "DATA[DATA.rfind(b'ersion', max(M.span()[0] - 10, 0), M.span()[0]) + 6:M.span()[0]])"],
         "decoders.network.find_urls": ["not is_url(GROUP)", "not is_url(url)"],
     }
+    REF["decoders.network.find_urls"] = ["not is_url(normalize_percent_encoding(GROUP)[0])"]
     for fq, ref in REF.items():
         fi = prog.fn(fq)
         loops = [n for n in fi.node.body if isinstance(n, ast.For)]
         need(len(loops) == 1, f"anchor: {fq} has one match loop")
         lp = loops[0]
+        need(isinstance(lp.target, ast.Name), f"anchor: {fq} loop variable")
         Mv = lp.target.id
         DATA = fi.params[0]
         ren = {Mv: "M", DATA: "DATA"}
         if fq.endswith("find_urls"):
             ren["group"] = "GROUP"
         isint = lambda e: ("len(" in norm_src(e) or "rfind" in norm_src(e)) and "re.match" not in norm_src(e)   # noqa: E731
-        az = G.Atomizer(rename=ren, is_int=isint, rewrite=[("regex.", "re.")])
-        # tuple-unpacked `start, end = match.span()` -> M.span()[0] / [1]
-        tup = {}
-        for st in lp.body:
-            if isinstance(st, ast.Assign) and isinstance(st.targets[0], ast.Tuple) and isinstance(st.value, ast.Call) and norm_src(st.value) == f"{Mv}.span()":
-                for i, t in enumerate(st.targets[0].elts):
-                    tup[t.id] = ast.parse(f"{Mv}.span()[{i}]", mode="eval").body
-        guards = []
-        for st in lp.body:
-            if isinstance(st, ast.If) and st.body and isinstance(st.body[-1], ast.Continue) and not st.orelse:
-                env = dict(common.block_env(lp.body, st) or {})
-                if not fq.endswith("find_urls"):
-                    env.update({k: v for k, v in tup.items() if k not in env})
-                else:
-                    env.pop("group", None)
-                az2 = G.Atomizer(subst=env, rename=ren, is_int=isint, rewrite=[("regex.", "re.")])
-                guards.append((st, az2.formula(st.test)))
+        # the acceptance condition: reaching condition of the statement that appends to the result list, with temporaries and
+        # tuple unpackings inlined; M.start() / M.end() are the two halves of M.span()
+        rewrite = [("regex.", "re."), ("M.start()", "M.span()[0]"), ("M.start(0)", "M.span()[0]"), ("M.end()", "M.span()[1]"), ("M.group(0)", "M.group()")]
+        apps = [n for n in own_nodes(lp) if isinstance(n, ast.Expr) and isinstance(n.value, ast.Call) and isinstance(n.value.func, ast.Attribute)
+                and n.value.func.attr in ("append", "extend") and isinstance(n.value.func.value, ast.Name)]
+        rets = [n for n in fi.node.body if isinstance(n, ast.Return) and isinstance(n.value, ast.Name)]
+        apps = [a_ for a_ in apps if rets and a_.value.func.value.id == rets[-1].value.id]
+        need(len(apps) == 1, f"anchor: {fq} appends to its result list in one place")
+        env = dict(common.block_env(lp.body, apps[0], unpack=True) or {})
+        if fq.endswith("find_urls"):
+            env.pop("group", None)
+        az = G.Atomizer(subst=env, rename=ren, is_int=isint, rewrite=rewrite)
+        pc = G.reach(lp.body, apps[0], az)
+        need(pc is not None, f"internal: cannot locate the append of {fq}")
         spec_az = G.Atomizer(is_int=isint)
-        refs = [spec_az.formula(common.spec_expr(r)) for r in ref]
-        for st, f in guards:
-            match = any(G.equivalent(f, r)[0] for r in refs)
-            run.ob("R5-filters", f"{fq}/filter:{G.show(f)[:70]}", match, f"{fi.module.rel}:{st.lineno}",
-                   "every rejecting filter between the regex and the result list is a validator or one of the documented false-positive heuristics",
-                   f"`if {common.short_src(st.test, 100)}: continue` is not equivalent to any reference filter of {fi.qualname}", mech="truth-table comparison with the reference filter list")
-        # nothing else can drop a match: no break / return in the loop, appends are unconditional afterwards
+        spec = G.f_and(*[G.f_not(spec_az.formula(common.spec_expr(r))) for r in ref])
+        okf, cm = G.equivalent(pc, spec)
+        run.ob("R5-filters", f"{fq}/acceptance-condition", okf, f"{fi.module.rel}:{apps[0].lineno}",
+               "a match is reported iff it passes the validator and none of the documented false-positive heuristics rejects it (nothing else can drop it)",
+               f"reported iff {G.show(pc)[:400]}; differs from the reference filter list at {G.show_model(cm) if cm else ''}", mech="reaching condition of the append vs the reference filter list, by truth table")
+        # nothing else can drop a match: no break / return in the loop
         bad = [n for s_ in lp.body for n in ast.walk(s_) if isinstance(n, (ast.Break, ast.Return))]
         run.ob("R5-filters", f"{fq}/no-early-exit", not bad, f"{fi.module.rel}:{lp.lineno}", "the match loop never stops early", "", mech="statement census")
-        apps = [s_ for s_ in lp.body if isinstance(s_, ast.Expr) and isinstance(s_.value, ast.Call) and isinstance(s_.value.func, ast.Attribute) and s_.value.func.attr == "append"]
-        run.ob("R5-filters", f"{fq}/append-unconditional", len(apps) == 1 and lp.body[-1] is apps[0], f"{fi.module.rel}:{lp.lineno}",
-               "a match that passes the filters is always appended (the append is the last, unconditional statement of the loop)", "", mech="statement census")
     fe = prog.fn("decoders.network.find_emails")
     comp = [n for n in own_nodes(fe.node) if isinstance(n, ast.ListComp)]
     ok = len(comp) == 1 and len(comp[0].generators) == 1 and len(comp[0].generators[0].ifs) == 1
     run.ob("R5-filters", "decoders.network.find_emails/single-filter", ok, f"{nm.rel}:{fe.lineno}", "e-mails are filtered by the domain validator only", "", mech="comprehension shape")
-    run.floor("R5-filters", 14)
+    run.floor("R5-filters", 7)
     # ------------------------------------------------------------------ R6 label agreement with EXT_MAP
     ext_map = prog.const(fm, "EXT_MAP")
     for fq, ext in (("decoders.filename.find_executable_name", b".exe"), ("decoders.filename.find_library", b".dll")):
